@@ -549,14 +549,6 @@ impl Deserializer {
         }
     }
 
-    pub(crate) fn array(value: Value) -> Self {
-        Self {
-            non_native_type: None,
-            seq_type: Some(SequenceType::Array),
-            enum_type: Default::default(),
-            value,
-        }
-    }
 }
 
 impl<'de> de::Deserializer<'de> for Deserializer {
@@ -1074,7 +1066,9 @@ impl<'de> de::SeqAccess<'de> for SeqAccess {
         match self.iter.next() {
             Some(elem) => match self.seq_type {
                 SeqType::List => seed.deserialize(Deserializer::new(elem)).map(Some),
-                SeqType::Array => seed.deserialize(Deserializer::array(elem)).map(Some),
+                // The elements of an array are ordinary values: only the array itself is
+                // looked for as `Value::Array`
+                SeqType::Array => seed.deserialize(Deserializer::new(elem)).map(Some),
             },
             None => Ok(None),
         }
